@@ -10,6 +10,7 @@ symbolic values are realised at that C boundary.
 from __future__ import annotations
 
 import ast
+import enum
 import json
 from pathlib import Path
 
@@ -158,6 +159,8 @@ def plain(obj, full):
             return {str(realize_value(k)): walk(v) for k, v in o.items()}
         if isinstance(o, (list, tuple)):
             return [walk(v) for v in o]
+        if isinstance(o, enum.Enum):
+            return walk(o.value)  # str-based enumerations are emitted as their value by json
         if o is None or isinstance(o, (bool, int, float, str)):
             return realize_value(o)
         return walk(enc.default(o))
